@@ -431,16 +431,26 @@ class SchemaGen(object):
         for f in rng.sample(sorted(self.field_pool), min(2, len(self.field_pool))):
             if not q.field(f):
                 q.fields.append(self.field_pool[f])
+        # one object type may serve several operations (schema { query: Root, mutation: Root })
+        shared = self.features.get("shared_roots")
+        if shared is None:
+            shared = rng.random() < 0.1
         if rng.random() < 0.6 or self.features.get("mutation"):
-            m = s.add(SType("object", "Mutation" if rng.random() < 0.7 else "RootM", self.desc()))
-            s.mutation = m.name
-            for _ in range(rng.randint(1, 4)):
-                m.fields.append(self.gen_field(m, leafs + composite))
+            if shared:
+                s.mutation = q.name
+            else:
+                m = s.add(SType("object", "Mutation" if rng.random() < 0.7 else "RootM", self.desc()))
+                s.mutation = m.name
+                for _ in range(rng.randint(1, 4)):
+                    m.fields.append(self.gen_field(m, leafs + composite))
         if rng.random() < 0.4 or self.features.get("subscription"):
-            sub = s.add(SType("object", "Subscription" if rng.random() < 0.7 else "RootS", self.desc()))
-            s.subscription = sub.name
-            for _ in range(rng.randint(1, 3)):
-                sub.fields.append(self.gen_field(sub, leafs + composite))
+            if shared and rng.random() < 0.5:
+                s.subscription = q.name
+            else:
+                sub = s.add(SType("object", "Subscription" if rng.random() < 0.7 else "RootS", self.desc()))
+                s.subscription = sub.name
+                for _ in range(rng.randint(1, 3)):
+                    sub.fields.append(self.gen_field(sub, leafs + composite))
 
     def gen_directives(self):
         rng = self.rng
@@ -623,6 +633,9 @@ def value_text(v):
     if isinstance(v, int):
         return str(v)
     if isinstance(v, float):
+        if v != v or v in (float("inf"), float("-inf")):
+            # no literal denotes these; a literal beyond the double range is read as infinity
+            return "-1e999" if v < 0 else "1e999"
         r = repr(v)
         return r
     if isinstance(v, str):
